@@ -120,6 +120,30 @@ def run(ctx):
                     if not good:
                         ctx.prop_fail('decoder returned a value violating the subtype constraint of %s' % name,
                                       {'decoder': cdc, 'type': name, 'bytes': data.hex()}, finding=fid if fid == 'F13' else None)
+    # mandatory members, systematically: SET and SEQUENCE types with 2-4 mandatory members of distinct tags; every
+    # proper subset of the members, for SET in every arrival order, definite and indefinite: whatever the decoder
+    # returns must hold every mandatory member (it should refuse)
+    import itertools
+    leaf = [(univ.Integer(), univ.Integer(5)), (univ.Boolean(), univ.Boolean(True)), (univ.OctetString(), univ.OctetString(b'abc')),
+            (univ.Null(), univ.Null('')), (univ.ObjectIdentifier(), univ.ObjectIdentifier((1, 2, 3)))]
+    for k in (2, 3, 4):
+        for container, tagoct in ((univ.Set, 0x31), (univ.Sequence, 0x30)):
+            members = leaf[:k] if container is univ.Set else leaf[1:k + 1]
+            spec = container(componentType=namedtype.NamedTypes(*[namedtype.NamedType('m%d' % i, t) for i, (t, _) in enumerate(members)]))
+            encs = [I.run_encode('BER', v)[1] for _, v in members]
+            for r in range(0, k):
+                for subset in itertools.combinations(range(k), r):
+                    orders = itertools.permutations(subset) if container is univ.Set else [subset]
+                    for order in orders:
+                        body = b''.join(encs[i] for i in order)
+                        for data, cdcs in ((bytes([tagoct, len(body)]) + body, ('BER', 'DER')), (bytes([tagoct, 0x80]) + body + b'\x00\x00', ('BER', 'CER'))):
+                            for cdc in cdcs:
+                                d = I.run_decode(cdc, data, asn1Spec=spec)
+                                ctx.case(('mandatory', container.__name__, k, order, data[1] == 0x80, cdc), True)
+                                if d[0] == 'ok':
+                                    ctx.prop_fail('decoder returned a %s lacking mandatory members %s (arrived: %s)' % (
+                                        container.__name__, sorted(set(range(k)) - set(subset)), list(order)),
+                                        {'decoder': cdc, 'type': '%s of %d mandatory members' % (container.__name__, k), 'bytes': data.hex()})
     # constrained strings in every BER form (primitive, one or more segments, indefinite), untagged and under an
     # EXPLICIT tag: the decoder assembles segments into a fresh value object before the type sees them
     from pyasn1.type import tag as _tag, char as _char
